@@ -38,7 +38,7 @@ SCOPES: Dict[str, Tuple[str, ...]] = {
     'C11': (CORE + 'protocols/json', CORE + 'value/', CORE + 'devices/', CORE + 'study/', GOOGLE + 'devices/', GOOGLE + 'study/'),
     'C12': (CORE + 'circuits/', CORE + 'value/', CORE + 'protocols/', CORE + 'ops/classically', CORE + 'ops/if_op'),
     'C13': (CORE + 'sim/clifford/', CORE + 'qis/', CORE + 'ops/clifford_gate.py', CORE + 'ops/dense_pauli_string.py'),
-    'C14': (CORE + 'ops/pauli', CORE + 'ops/linear_combinations.py', CORE + 'ops/dense_pauli_string.py', CORE + 'ops/projector.py', CORE + 'work/observable', CORE + 'sim/simulator.py',
+    'C14': (CORE + 'ops/pauli', CORE + 'ops/linear_combinations.py', CORE + 'ops/dense_pauli_string.py', CORE + 'ops/projector.py', CORE + 'work/observable', CORE + 'work/sampler.py', CORE + 'work/pauli_sum_collector.py', CORE + 'sim/simulator.py',
             CORE + 'sim/sparse_simulator.py', CORE + 'sim/density_matrix_simulator.py', CORE + 'value/linear_dict.py'),
     'C16': (GOOGLE + 'api/', GOOGLE + 'serialization/', GOOGLE + 'devices/', GOOGLE + 'study/', GOOGLE + 'ops/', GOOGLE + 'engine/engine_result.py'),
     'C17': ('cirq-ionq/', 'cirq-aqt/', 'cirq-pasqal/'),
@@ -859,6 +859,50 @@ def emptiness_belief_rule(ctx, rid: str, pid: str, floor: int = 0):
                    f'`{ast.unparse(s_)}` is taken where `{x}` may be empty: the function itself tests `{ast.unparse(beliefs[x])}`, and nothing on the way to this line excludes the empty case', m.rel, s_.lineno)
     return n
 
+
+def inverted_relation_rule(ctx, rid: str, pid: str, floor: int = 0):
+    """Inverting a one-to-many relation into a plain dictionary: `for i, group in enumerate(groups): for x in group: back[x] = i`."""
+    repo = ctx.repo
+    ctx.rule(rid, 'a back-mapping keeps every owner: where a nested loop stores `d[<inner loop variable>] = <outer loop variable>` and d is only read after the loops (a back-mapping, '
+             'not a running tracker that the loop itself consults), the function guards against an inner value that occurs under two outer ones (a membership test on d) or stores a '
+             'collection per key - otherwise the later group silently takes over what belongs to both (a Pauli string that appears in two observables)', floor=floor, style='EFF')
+
+    def names(t):
+        return {x.id for x in ast.walk(t) if isinstance(x, ast.Name)}
+    n = 0
+    for m, ci, fn in _functions(repo, pid):
+        for outer in ast.walk(fn):
+            if not isinstance(outer, ast.For):
+                continue
+            ov = names(outer.target)
+            for inner in ast.walk(outer):
+                if inner is outer or not isinstance(inner, ast.For) or not (names(inner.iter) & ov):
+                    continue
+                iv = names(inner.target)
+                for st in inner.body:
+                    if not (isinstance(st, ast.Assign) and len(st.targets) == 1 and isinstance(st.targets[0], ast.Subscript) and isinstance(st.targets[0].value, ast.Name)):
+                        continue
+                    key, val = names(st.targets[0].slice), names(st.value)
+                    if not (key and key <= iv and val and val <= ov):
+                        continue
+                    d = st.targets[0].value.id
+                    # a tracker is read inside the outer loop (other than by this store); a guard tests membership
+                    top = outer   # the outermost loop around the store: a tracker is consulted somewhere in it
+                    par = m.parents()
+                    cur = outer
+                    while cur in par and cur is not fn:
+                        cur = par[cur]
+                        if isinstance(cur, (ast.For, ast.While)):
+                            top = cur
+                    reads = [x for x in ast.walk(top) if isinstance(x, ast.Name) and x.id == d and isinstance(x.ctx, ast.Load) and x is not st.targets[0].value]
+                    if reads:
+                        continue
+                    n += 1
+                    ctx.ob(rid, f'{m.name}.{(ci.name + ".") if ci else ""}{fn.name}:{d}', False,
+                           f'`{ast.unparse(st)}` inverts a one-to-many relation: a value of the inner loop that occurs under two values of the outer loop keeps only the last, and nothing '
+                           f'in the loops looks at `{d}` to notice', m.rel, st.lineno)
+    return n
+
 FLOORS = {   # (z_fwd, z_drop, z_pair): about two thirds of the instances confirmed on the tree the rules were armed on
     'C01': (7, 40, 11),
     'C02': (4, 55, 8),
@@ -895,11 +939,12 @@ def apply(ctx, pid: str, only=None):
         'z_gen': lambda: single_use_generator_rule(ctx, f'{pid}.z_gen', pid, floor=0),
         'z_memo': lambda: memo_invalidation_rule(ctx, f'{pid}.z_memo', pid, floor=0),
         'z_first': lambda: emptiness_belief_rule(ctx, f'{pid}.z_first', pid, floor=0),
+        'z_inv': lambda: inverted_relation_rule(ctx, f'{pid}.z_inv', pid, floor=0),
     }
     out = {}
     for k, f in rules.items():
         if only is None or k in only:
             out[k] = f()
     ctx.decided.append(f'{pid}.z_* general rules on the functions attributed to this property: sibling calls forward the same parameters (z_fwd), a wrapper does not swallow an option its '
-                       'callee accepts (z_drop), positional pairing only over ordered collections (z_pair), presence of a key is not tested by truthiness of the value (z_get), constructors do not mutate their arguments (z_ctor), optional option bags are inputs only (z_opt), generators are consumed once (z_gen), a lazily memoised field is dropped wherever its source fields are reassigned (z_memo), x[0] / x[-1] only where the function\'s own emptiness test protects it (z_first)')
+                       'callee accepts (z_drop), positional pairing only over ordered collections (z_pair), presence of a key is not tested by truthiness of the value (z_get), constructors do not mutate their arguments (z_ctor), optional option bags are inputs only (z_opt), generators are consumed once (z_gen), a lazily memoised field is dropped wherever its source fields are reassigned (z_memo), x[0] / x[-1] only where the function\'s own emptiness test protects it (z_first), a back-mapping built in a nested loop does not drop owners (z_inv)')
     return out
